@@ -652,6 +652,87 @@ pub fn make_case(rng: &mut Rng, family: &str, r: u32, m: usize, b: f64, g: &Grap
     c
 }
 
+/// One-way streets on top of a grid sub-graph: returns DIRECTED edges.
+///  * districts: the nodes beyond a threshold along one of the four axis keys (a strip / corner of the map, i.e. where
+///    the contracted ends of an inertial-flow step lie); `inward` districts can be entered but not left (every edge
+///    from inside to outside is deleted), `outward` ones can be left but not entered;
+///  * `oneway` per-mille of the remaining two-way streets keep one random direction only;
+///  * `sinks` nodes lose all outgoing edges, `sources` nodes lose all incoming edges.
+pub fn gen_oneway(rng: &mut Rng, g: &Graph, districts: usize, oneway: u64, sinks: usize, sources: usize) -> Vec<(usize, usize)> {
+    let n = g.coords.len();
+    let mut dir: HashSet<(usize, usize)> = HashSet::new();
+    for &(u, v) in &g.und {
+        dir.insert((u, v));
+        dir.insert((v, u));
+    }
+    let key = |a: usize, c: (i32, i32)| -> i64 {
+        let (lat, lon) = (c.0 as i64, c.1 as i64);
+        match a {
+            0 => lat,
+            1 => lon,
+            2 => lat + lon,
+            _ => lat - lon,
+        }
+    };
+    for _ in 0..districts {
+        let a = rng.below(4) as usize;
+        let high = rng.chance(1, 2);
+        let mut ks: Vec<i64> = g.coords.iter().map(|c| key(a, *c)).collect();
+        ks.sort();
+        let cnt = 1 + rng.below((n as u64 * 2 / 5).max(1)) as usize;
+        let thr = if high { ks[n - cnt.min(n)] } else { ks[cnt.min(n) - 1] };
+        let inside: Vec<bool> = g.coords.iter().map(|c| if high { key(a, *c) >= thr } else { key(a, *c) <= thr }).collect();
+        let inward = rng.chance(2, 3);
+        dir.retain(|&(u, v)| {
+            if inside[u] == inside[v] {
+                true
+            } else if inward {
+                !inside[u] // only edges entering the district survive
+            } else {
+                inside[u]
+            }
+        });
+    }
+    for &(u, v) in &g.und {
+        if dir.contains(&(u, v)) && dir.contains(&(v, u)) && rng.chance(oneway, 1000) {
+            if rng.chance(1, 2) {
+                dir.remove(&(u, v));
+            } else {
+                dir.remove(&(v, u));
+            }
+        }
+    }
+    for _ in 0..sinks {
+        let x = rng.below(n as u64) as usize;
+        dir.retain(|&(u, _)| u != x);
+    }
+    for _ in 0..sources {
+        let x = rng.below(n as u64) as usize;
+        dir.retain(|&(_, v)| v != x);
+    }
+    let mut out: Vec<(usize, usize)> = dir.into_iter().collect();
+    out.sort();
+    out
+}
+
+/// a case from directed edges (`E` lines): shuffled or sorted by (source, target)
+pub fn make_case_directed(rng: &mut Rng, family: &str, r: u32, m: usize, b: f64, coords: &[(i32, i32)], dir: &[(usize, usize)], shuffle: bool) -> Case {
+    let mut c = Case::new(family);
+    c.op(format!("P r={r} m={m} bbits={} bstr={}", b.to_bits(), b));
+    c.op(format!("N {}", coords.len()));
+    for (lat, lon) in coords {
+        c.op(format!("C {lat} {lon}"));
+    }
+    let mut dir = dir.to_vec();
+    if shuffle {
+        rng.shuffle(&mut dir);
+    }
+    for (u, v) in dir {
+        c.op(format!("E {u} {v} {}", rand_weight(rng)));
+    }
+    c
+}
+
 pub const BASES: [(i32, i32); 8] = [
     (0, 0),
     (48_137_000, 11_575_000),
